@@ -440,6 +440,8 @@ pub fn scenarios(_tier: &str) -> Vec<Scenario> {
     for (n, reqs, progs) in [
         ("idle", vec![], vec![]),
         ("one-pending", vec![RequestSpec::new("GET", 0)], vec![ok().pend(2)]),
+        ("one-pending-handler-asks-keep-alive", vec![RequestSpec::new("GET", 0)], vec![ok().pend(2).keep_alive()]),
+        ("one-streaming-handler-asks-keep-alive", vec![RequestSpec::new("GET", 0)], vec![stream_body().keep_alive()]),
         ("one-streaming", vec![RequestSpec::new("GET", 0)], vec![stream_body()]),
         ("pipelined-2", vec![RequestSpec::new("GET", 0), RequestSpec::new("GET", 1)], vec![ok().pend(1), ok()]),
         ("pipelined-3-streaming", vec![RequestSpec::new("GET", 0), RequestSpec::new("GET", 1), RequestSpec::new("GET", 2)], vec![stream_body().pend(1), ok(), ok()]),
